@@ -28,10 +28,19 @@ type c17Case struct {
 	Spell string `json:"spell"`  // rel, abs, dotslash, dblslash, updown
 	Via   string `json:"via"`    // lib, cli
 	Rep   int    `json:"rep,omitempty"`
+	Big   bool   `json:"big,omitempty"` // slice size 96 and larger files, so that the goroutine option really splits the work
 }
 
 var c17Names = []string{"f0", "sub/f1", "f2", "sub/deep/f3"}
 var c17Sizes = []int{11, 6, 9, 4}
+var c17BigSizes = []int{300, 96, 200, 50}
+
+func (c *c17Case) slice() int {
+	if c.Big {
+		return 96
+	}
+	return 4
+}
 
 func c17Spell(style, cwd, abs string) string {
 	rel, err := filepath.Rel(cwd, abs)
@@ -92,7 +101,11 @@ func c17Create(c *c17Case, seed int64, r *core.Rec) (map[string][]byte, error) {
 		}
 		p := filepath.Join(setDir, name)
 		os.MkdirAll(filepath.Dir(p), 0755)
-		ioutil.WriteFile(p, scen.Content("uniq", seed, i, c17Sizes[i], 4), 0644)
+		sz := c17Sizes[i]
+		if c.Big {
+			sz = c17BigSizes[i]
+		}
+		ioutil.WriteFile(p, scen.Content("uniq", seed, i, sz, 4), 0644)
 		abs = append(abs, p)
 	}
 	if c.Fmt == "p2" {
@@ -127,7 +140,7 @@ func c17Create(c *c17Case, seed int64, r *core.Rec) (map[string][]byte, error) {
 		if bin == "" {
 			return nil, fmt.Errorf("VERIF_PAR_BIN not set")
 		}
-		cl := []string{"-g", fmt.Sprint(c.G), "c", "-s", "4", "-c", "3", parArg}
+		cl := []string{"-g", fmt.Sprint(c.G), "c", "-s", fmt.Sprint(c.slice()), "-c", "3", parArg}
 		cl = append(cl, args...)
 		cmd := exec.Command(bin, cl...)
 		cmd.Dir = cwd
@@ -144,7 +157,7 @@ func c17Create(c *c17Case, seed int64, r *core.Rec) (map[string][]byte, error) {
 		}
 		pi := core.Catch(func() {
 			if c.Fmt == "p2" {
-				err = par2.Create(parArg, args, par2.CreateOptions{SliceByteCount: 4, NumParityShards: 3, NumGoroutines: c.G})
+				err = par2.Create(parArg, args, par2.CreateOptions{SliceByteCount: c.slice(), NumParityShards: 3, NumGoroutines: c.G})
 			} else {
 				err = par1.Create(parArg, args, par1.CreateOptions{NumParityFiles: 3})
 			}
@@ -173,10 +186,10 @@ var c17Base = map[string]map[string][]byte{}
 
 func c17Run(ci interface{}, r *core.Rec) {
 	c := ci.(*c17Case)
-	key := fmt.Sprintf("%s/%d", c.Fmt, c.N)
+	key := fmt.Sprintf("%s/%d/%v", c.Fmt, c.N, c.Big)
 	base, ok := c17Base[key]
 	if !ok {
-		b := &c17Case{Fmt: c.Fmt, N: c.N, Perm: 0, G: 1, Cwd: "set", Spell: "rel", Via: "lib"}
+		b := &c17Case{Fmt: c.Fmt, N: c.N, Perm: 0, G: 1, Cwd: "set", Spell: "rel", Via: "lib", Big: c.Big}
 		var err error
 		base, err = c17Create(b, r.Seed, r)
 		if err != nil {
@@ -242,6 +255,22 @@ func c17Gen(g *core.Gen) {
 					}
 				}
 			}
+			// slice size 96 with files of several slices: every goroutine count 1..16 really partitions the shards
+			if f == "p2" {
+				for pm := 0; pm < np; pm++ {
+					for gg := 1; gg <= 16; gg++ {
+						for ci, cw := range cwds {
+							sp := spells[(pm+gg+ci)%len(spells)]
+							g.Emit(&c17Case{Fmt: f, N: n, Perm: pm, G: gg, Cwd: cw, Spell: sp, Via: "lib", Big: true})
+							if gg == 2 || gg == 3 || gg == 5 {
+								if g.Thorough() || pm%3 == 0 {
+									g.Emit(&c17Case{Fmt: f, N: n, Perm: pm, G: gg, Cwd: cw, Spell: sp, Via: "cli", Big: true})
+								}
+							}
+						}
+					}
+				}
+			}
 			for rep := 1; rep <= 3; rep++ {
 				g.Emit(&c17Case{Fmt: f, N: n, G: 1, Cwd: "set", Spell: "rel", Via: "lib", Rep: rep})
 				g.Emit(&c17Case{Fmt: f, N: n, G: 1, Cwd: "set", Spell: "rel", Via: "cli", Rep: rep})
@@ -254,7 +283,7 @@ func init() {
 	core.Register(&core.Prop{
 		ID:    "C17",
 		Level: "model_checking",
-		Rule: "full product on real directories: {PAR2, PAR1} x 1-4 files (PAR2 names in sub-directories) x EVERY permutation of the input list (PAR2) x goroutines 1..8 x working directory {set directory, its parent, an unrelated directory} x path spelling {relative, absolute, ./x, d//x, d/../d/x} for the index path and every input, through the library (the worker chdir()s, one scenario at a time) and through the built par command (g in {1,3}); repeated runs. " +
+		Rule: "full product on real directories: {PAR2, PAR1} x 1-4 files (PAR2 names in sub-directories) x EVERY permutation of the input list (PAR2) x goroutines 1..8 x working directory {set directory, its parent, an unrelated directory} x path spelling {relative, absolute, ./x, d//x, d/../d/x} for the index path and every input, through the library (the worker chdir()s, one scenario at a time) and through the built par command (g in {1,3}); the same for a set with slice size 96 and multi-slice files x goroutines 1..16 (so that the goroutine option really partitions the shards); repeated runs. " +
 			"Oracle: the set of files written and every byte equal the baseline run (set directory, relative paths, listed order, g=1). non-trivial = any variation differs from the baseline configuration",
 		Assumptions: []string{"file contents, names relative to the index, slice size and block count are held fixed; everything else varies"},
 		NewCase:     func() interface{} { return &c17Case{} },
